@@ -463,6 +463,8 @@ def check_C17(tier, seed):
         run.violation(run.replay('build-tsan.txt', e), True)
     else:
         envs = envs_for(rnd, tier, 6, 40)
+        # always a schema with more than 128 fields (the parser's required-fields bitmap then lives outside the stack frame)
+        envs.append(casegen.gen_env(rnd, nmsgs=2, big=True, wide=True))
         per_env = 40 if tier == 'quick' else 150
         nthreads = 8
         for env in envs:
@@ -470,6 +472,14 @@ def check_C17(tier, seed):
             lines, _ = stream_pack(rnd, env, st, per_env, canon=False)
             lines += stream_unpack(rnd, env, st, per_env, op='RT')
             lines += ['UNPACKA %s -' % l.split(' ', 1)[1] for l in stream_unpack(rnd, env, Stats(), per_env // 2)]
+            # queries of the shared descriptors, by number and by name, hits and misses, the same one from several threads
+            for _ in range(per_env):
+                md = rnd.choice(env.msgs)
+                fid = rnd.choice([f.id for f in md.fields]) if md.fields and rnd.random() < 0.8 else rnd.randint(1, 70000)
+                l = 'LOOKUP %d %d' % (md.idx, fid)
+                lines.extend([l] * rnd.choice([1, 1, 8]))
+                st.add('LOOKUP', l)
+            rnd.shuffle(lines)
             text = env.text() + '\n'.join(lines) + '\n'
             rc0, seq_out, seq_err = run_driver(ctx.impl, text, 'c17seq')
             rc1, mt_out, mt_err = run_driver(exe, text, 'c17mt', pre_args=['-j', str(nthreads)])
